@@ -60,7 +60,7 @@ class _BaseAttribute(ABC):
                 return cls.Int
             if txt in {"bool", "\"bool\""}:
                 return cls.Bool
-            if txt in {"str", "string"}:
+            if txt in {"str", "string", "\"str\"", "\"string\""}:
                 return cls.String
             raise Exception(f"String '{txt}' corresponds to no attribute type")
 
